@@ -161,6 +161,47 @@ func genC02(g *G) {
 		}
 		g.Emit(J{"op": op, "f": f, "values": vals, "honest": hidx}, tag...)
 	}
+	// one correct observer reports a value of another type (a data source in transition): it is dropped
+	// by the type bucket, and inside the winning bucket correct values still outnumber faulty ones — the
+	// aggregate must still come from a correct observer, whatever the position of the odd value in the list
+	for i := 0; i < g.N(200, 3000); i++ {
+		f := 1 + g.R.Intn(3)
+		b := 1 + g.R.Intn(f)
+		h := b + 2 + g.R.Intn(f+1) // h-1 in-bucket correct values > b faulty ones
+		op := []string{"agg.median", "agg.quote"}[g.R.Intn(2)]
+		odd := svJ(llo.ToDecimal(rndDec(g)))
+		var rest []any
+		var hidx []any
+		for k := 0; k < h-1; k++ {
+			rest = append(rest, svJ(rndQuote(g, true)))
+		}
+		extreme := decimal.New(int64(1+g.R.Intn(9)), int32(20+g.R.Intn(10)))
+		var faulty []any
+		for k := 0; k < b; k++ {
+			faulty = append(faulty, svJ(&llo.Quote{Bid: extreme, Benchmark: extreme, Ask: extreme}))
+		}
+		// positions: the odd value early, the faulty values late (and the other way round, and shuffled)
+		var vals []any
+		switch g.R.Intn(3) {
+		case 0:
+			vals = append(append([]any{odd}, rest...), faulty...)
+			for k := 0; k < h; k++ {
+				hidx = append(hidx, k)
+			}
+		case 1:
+			vals = append(append(append([]any{}, faulty...), rest...), odd)
+			for k := 0; k < h; k++ {
+				hidx = append(hidx, b+k)
+			}
+		default:
+			vals = append(append(append([]any{}, rest[:1]...), odd), append(append([]any{}, faulty...), rest[1:]...)...)
+			hidx = append(hidx, 0, 1)
+			for k := 0; k < h-2; k++ {
+				hidx = append(hidx, 2+b+k)
+			}
+		}
+		g.Emit(J{"op": op, "f": f, "values": vals, "honest": hidx}, op, "odd-typed-correct-value", "f="+S(f))
+	}
 	// starvation: at most f usable values => no aggregate
 	for i := 0; i < g.N(200, 2000); i++ {
 		f := 1 + g.R.Intn(3)
